@@ -118,15 +118,33 @@ def r3(ctx):
             lenv.setdefault(n.targets[0].id, []).append(n.value)
     lenv1 = {k: v[0] for k, v in lenv.items() if len(v) == 1}
     mean_ok = ctl_ok = False
+    from engine.astutil import stmt_conditions
+    loops = [n for n in walk_own(f.node) if isinstance(n, ast.For)]
     for n in st:
-        key = U(n.targets[0].slice).replace(" ", "")
-        v = inline(n.value, {k: x for k, x in lenv1.items() if k in ("single_effect", "mask")})
-        p = par.get(n)
-        if isinstance(p, ast.If) and N.b(p.test) == N.b(parse_expr("current_treatment_id == CONTROL_SENTINEL_VALUE")) and n in p.body:
-            ctl_ok = U(n.value) in ("1.0", "1") and key == "(current_sample_id,current_treatment_id)"
+        key = U(inline(n.targets[0].slice, {k: x for k, x in lenv1.items() if isinstance(x, ast.Tuple)})).replace(" ", "")
+        v = inline(n.value, {k: x for k, x in lenv1.items() if k not in ("single_treatment_observations", "single_treatment_treatments", "single_treatment_sample_ids", "result")
+                             and not k.startswith("current_")})
+        # conditions the store is reached under, inside the innermost loop that contains it (early `continue`s included)
+        inner = [lp for lp in loops if n in list(ast.walk(lp))]
+        inner = min(inner, key=lambda lp: len(list(ast.walk(lp)))) if inner else None
+        conds = stmt_conditions(inner.body).get(id(n), []) if inner is not None else []
+        is_ctl = None
+        other = []
+        for t, pol in conds:
+            b_ = N.b(t)
+            if b_ == N.b(parse_expr("current_treatment_id == CONTROL_SENTINEL_VALUE")):
+                is_ctl = pol
+            elif b_ == N.b(parse_expr("current_treatment_id != CONTROL_SENTINEL_VALUE")):
+                is_ctl = not pol
+            else:
+                other.append((t, pol))
+        if is_ctl is True:
+            ctl_ok = U(n.value) in ("1.0", "1") and key == "(current_sample_id,current_treatment_id)" and not other
         else:
-            want = parse_expr(f"np.mean(single_treatment_observations[(single_treatment_treatments == current_treatment_id) & (single_treatment_sample_ids == current_sample_id)])")
-            mean_ok = N.key(v) == N.key(want) and key == "(current_sample_id,current_treatment_id)"
+            m1 = "(single_treatment_treatments == current_treatment_id)"
+            m2 = "(single_treatment_sample_ids == current_sample_id)"
+            wants = [N.key(parse_expr(f"np.mean(single_treatment_observations[{x} & {y}])")) for x, y in ((m1, m2), (m2, m1))]
+            mean_ok = N.key(v) in wants and key == "(current_sample_id,current_treatment_id)" and is_ctl is False
             vals["effect"] = U(v)
     obs_ok = N.key(env.get("single_treatment_observations", ast.Constant(0))) == N.key(parse_expr(f"{obs}[{mask}]")) and \
         N.key(env.get("single_treatment_sample_ids", ast.Constant(0))) == N.key(parse_expr(f"{sids}[{mask}]"))
